@@ -88,19 +88,6 @@ def next (root : Ty) (top : Bool) : List Nat → Option (List Nat)
     | some (.union _ _ _) => next root top pr
     | _ => none
 
-mutual
-  /-- does the object value carry any explicit initializer? -/
-  def hasExpr : Init → Bool
-    | .leaf e => e.isSome
-    | .arr cs => hasExprList cs
-    | .flex => false
-    | .struct e cs => e.isSome || hasExprList cs
-    | .union m cs => m.isSome || hasExprList cs
-  def hasExprList : List Init → Bool
-    | [] => false
-    | c :: cs => hasExpr c || hasExprList cs
-end
-
 /-- the value "zero" of a subobject (p10): no explicit initializer anywhere -/
 def zeroOf (t : Ty) : Init := newInit t false
 
@@ -270,6 +257,14 @@ def firstCursor : Ty → Option (List Nat)
   | .struct ms _ _ => (nextNamed ms ms.length 0).map ([·])
   | .union ms _ _ => (nextNamed ms ms.length 0).map ([·])
 
+/-- the value a brace-enclosed list starts from: zero; for a union "the first named member is initialized" (p10) -/
+def braceStart (t : Ty) : Init :=
+  match t with
+  | .union ms _ _ => match nextNamed ms ms.length 0 with
+    | some k => (zeroOf t).setMem k
+    | none => zeroOf t
+  | _ => zeroOf t
+
 /-- the expression a token stands for when it is used as a scalar initializer -/
 def tokExpr : ITok → Option Expr
   | .expr e => some e
@@ -313,7 +308,7 @@ def initList : Nat → Ty → Bool → Init → Option (List Nat) → List ITok 
           -- braces: the whole subobject at the cursor (p19: overrides; p21: the rest is zero)
           let t ← (match subTy ty p0 with | some t => pure t | none => .error (.crash "spec: bad path") : Except Fail Ty)
           let t := if growable ty top p0 then (match t with | .array e _ => Ty.inc e | t => t) else t
-          let sub ← initList f t false (zeroOf t) (firstCursor t) inner true false
+          let sub ← initList f t false (braceStart t) (firstCursor t) inner true false
           let subObj := match sub.obj with | .flex => Init.arr [] | o => o
           let over := over || paths.any (touched obj) || sub.over
           let obj ← paths.foldlM (fun o p => modifyAt ty top (fun _ _ => pure subObj) ty [] p o) obj
@@ -334,7 +329,10 @@ def initList : Nat → Ty → Bool → Init → Option (List Nat) → List ITok 
 def initFull (ty : Ty) (toks : List ITok) : Except Fail Result :=
   match toks with
   | .lbrace :: r => do
-    let res ← initList (toks.length + 2) ty true (newInit ty true) (firstCursor ty) r true false
+    let start := match ty with
+      | .union ms _ _ => (match nextNamed ms ms.length 0 with | some k => (newInit ty true).setMem k | none => newInit ty true)
+      | _ => newInit ty true
+    let res ← initList (toks.length + 2) ty true start (firstCursor ty) r true false
     pure { res with obj := match res.obj with | .flex => .arr [] | o => o }
   | tok :: r =>
     -- p11 scalar, p13 struct-typed expression, p14/p15 string literal for a character array; anything else needs braces (p16)
